@@ -236,6 +236,12 @@ func (g *Gen) noteCall(c *ssa.CallCommon, in ssa.Instruction, res *Val, prefix s
 				if r.T == "" || r.Ty == nil {
 					continue
 				}
+				if sn := fmt.Sprintf("$sumlen:%s:%d", name, i); g.sumlenWanted[sn] {
+					// sumlen(sel, i): total length of the i-th (slice) result over all calls
+					if _, ok := r.Ty.Underlying().(*types.Slice); ok {
+						s.ghost[sn] = sx("+", g.ghostTerm(s, sn), sx("sl-len", r.T))
+					}
+				}
 				gn := fmt.Sprintf("$res:%s:%d", name, i)
 				g.ghostSorts[gn] = g.st.sortOf(r.Ty)
 				if g.ghostTypes == nil {
@@ -628,6 +634,19 @@ func (g *Gen) applyContract(con *Contract, c *ssa.CallCommon, in ssa.Instruction
 			continue
 		}
 		g.assume(t)
+	}
+	for _, ex := range con.Exports {
+		for _, name := range callNames(c) {
+			gn := fmt.Sprintf("$exp:%s:%s", name, ex.Label)
+			if !g.exportWanted[gn] {
+				continue
+			}
+			v, err := post.eval(ex.E)
+			if err != nil {
+				g.fail("export %s of %s: %v", ex.Label, con.Key, err)
+			}
+			g.cur.ghost[gn] = v.T
+		}
 	}
 	if con.Trusted {
 		g.assumptions = appendUnique(g.assumptions, "trusted contract: "+con.FullKey())
